@@ -8,7 +8,7 @@
    the harness checks these hypotheses on every recorded LAPACK call. *)
 From Coq Require Import Reals ZArith List Permutation.
 From PV Require Import Num NumR Model_diag Proofs_diag Proofs_diag_inst Proofs_diag_more Proofs_diag_angle
-  Model_diag_session Proofs_diag_session.
+  Model_diag_session Proofs_diag_session Model_diag_fse_session Proofs_diag_fse_session.
 From PV.gen Require Import Gen_diag.
 Import ListNotations.
 Open Scope R_scope.
@@ -216,6 +216,16 @@ Theorem C13_pgr_random_iff : forall (eigvalsh : S3 -> V3) os r,
   (Rn = 1 <-> scatter os r = iso6 (INR (length os) / 3)) /\
   (Rn = 1 -> P = 0 /\ G = 0).
 Proof. exact pgr_random_iff. Qed.
+
+(* R = 0 iff all axes of the chosen kind lie in ONE plane (are orthogonal to a common unit vector); the normal
+   is the first eigenvector of any orthonormal eigen-decomposition `e` of the scatter matrix (e.g. LAPACK's) *)
+Theorem C13_pgr_coplanar_iff : forall (eigvalsh : S3 -> V3) os r (e : EV),
+  os <> [] -> Forall unit_rows os ->
+  vals_spec (scatter os r) (eigvalsh (scatter os r)) -> eig_spec (scatter os r) e ->
+  let '(P, G, Rn) := symmetry_pgr eigvalsh os r in
+  (Rn = 0 <-> exists u : V3, dot3 u u = 1 /\ Forall (fun o => dot3 (rowv r o) u = 0) os) /\
+  (Rn = 0 -> Forall (fun o => dot3 (rowv r o) (fst (fst (snd e))) = 0) os).
+Proof. exact pgr_coplanar_iff. Qed.
 
 (* the coaxial index is NOT symmetric in its axes: BA(axis2, axis1) = 1 - BA(axis1, axis2), BA(axis, axis) = 1/2 *)
 Theorem C13_coaxial_swap : forall (eigvalsh : S3 -> V3) os r1 r2,
@@ -523,3 +533,67 @@ Example C13_session_nonvacuous :
   inplace_symmetry (buf st 0) 0 (SFlip 0 [((1, -1, -1) : V3)]) /\
   same_call st (store_after st [SFill 0 [Iyx]; SPgr 0 1; SFill 0 [I3]]) (SPgr 0 2) (SPgr 0 2).
 Proof. exact nonvacuous_session. Qed.
+
+(* ---- finite_strain call sequences on live deformation-gradient objects updated in place
+        (Model_diag_fse_session): `frun false` is the source as it is, `fpure_run` evaluates the one-call
+        function on the contents the argument has at the time of the call ---- *)
+Theorem C13_fse_session_call_history_independent : forall (F : Num) (eigh : @sym3 F -> @eigres F)
+    (st st' : @fstore F) (c c' : @fcache F) (h h' : list (@fop F)) (b b' : nat),
+  frun eigh false (st, c) h = fpure_run eigh st h /\
+  frun eigh false (st, c) (h ++ [FStrain b]) =
+    frun eigh false (st, c) h ++ fpure_out eigh (fstore_after st h) (FStrain b) /\
+  fstore_after st h = fstore_after st (filter is_update h) /\
+  (fobj (fstore_after st h) b = fobj (fstore_after st' h') b' ->
+   fpure_out eigh (fstore_after st h) (FStrain b) = fpure_out eigh (fstore_after st' h') (FStrain b')).
+Proof. exact @fse_session_call_pure. Qed.
+
+(* [call; F[...] = F @ Q; call] on one object: LAPACK is handed the SAME matrix, the second call
+   returns exactly what the first did *)
+Theorem C13_fse_session_right_rotation : forall (eigh : S3 -> EV) (st : @fstore NumR) (c : @fcache NumR) b,
+  (b < length st)%nat -> forall Q : M3, orthogonal Q ->
+  let B := left_cauchy_green (fobj st b) in
+  exists v ax, frun eigh false (st, c) [FStrain b; FRight b Q; FStrain b] = [OFse B v ax; OFse B v ax] /\
+               (v, ax) = finite_strain eigh (fobj st b).
+Proof. exact fse_session_right_rotation. Qed.
+
+(* [call; F[...] = Q @ F; call]: LAPACK gets Q B Q^T; same value; axis co-rotated up to sign *)
+Theorem C13_fse_session_left_rotation : forall (eigh : S3 -> EV) (st : @fstore NumR) (c : @fcache NumR) b,
+  (b < length st)%nat -> forall Q : M3, orthogonal Q ->
+  let B := left_cauchy_green (fobj st b) in
+  eig_spec B (eigh B) -> eig_spec (congr Q B) (eigh (congr Q B)) ->
+  exists v ax ax', frun eigh false (st, c) [FStrain b; FLeft b Q; FStrain b] =
+                     [OFse B v ax; OFse (congr Q B) v ax'] /\
+                   (v, ax) = finite_strain eigh (fobj st b) /\
+                   (simple_top (eigh B) -> up_to_sign ax' (mulv Q ax)).
+Proof. exact fse_session_left_rotation. Qed.
+
+(* F *= k (k > 0): every principal stretch is multiplied by k *)
+Theorem C13_fse_scale_value : forall (eigh eigh' : S3 -> EV) (Fm : M3) (k : R), 0 < k ->
+  vals_spec (left_cauchy_green Fm) (fst (eigh (left_cauchy_green Fm))) ->
+  vals_spec (left_cauchy_green (@scale_m3 NumR k Fm)) (fst (eigh' (left_cauchy_green (@scale_m3 NumR k Fm)))) ->
+  fst (finite_strain eigh' (@scale_m3 NumR k Fm)) + 1 = k * (fst (finite_strain eigh Fm) + 1).
+Proof. exact fse_scale_value. Qed.
+
+(* F[...] = F.T: the value is unchanged (F^T F and F F^T have the same eigenvalues) *)
+Theorem C13_fse_transpose_value : forall (eigh eigh' : S3 -> EV) (Fm : M3),
+  vals_spec (left_cauchy_green Fm) (fst (eigh (left_cauchy_green Fm))) ->
+  vals_spec (left_cauchy_green (transpose Fm)) (fst (eigh' (left_cauchy_green (transpose Fm)))) ->
+  fst (finite_strain eigh' (transpose Fm)) = fst (finite_strain eigh Fm).
+Proof. exact fse_transpose_value. Qed.
+
+(* remembering F.F^T per object identity without invalidation: [call; overwrite; call] hands LAPACK the OLD matrix *)
+Theorem C13_fse_session_memo_refuted :
+  exists (st : @fstore NumR) (h : list (@fop NumR)),
+    forall (eigh : S3 -> EV),
+      lcgs_of (frun eigh true (st, []) h) <> lcgs_of (fpure_run eigh st h) /\
+      lcgs_of (frun eigh false (st, []) h) = lcgs_of (fpure_run eigh st h).
+Proof. exact fse_memo_refuted. Qed.
+
+Example C13_fse_session_nonvacuous :
+  let st : @fstore NumR := [F2] in
+  (0 < length st)%nat /\ orthogonal Iyx /\
+  eig_spec (left_cauchy_green (fobj st 0)) ex_eig_F2 /\ simple_top ex_eig_F2 /\
+  eig_spec (congr Iyx (left_cauchy_green (fobj st 0))) ex_eig_F2_swapped /\
+  vals_spec (left_cauchy_green (fobj st 0)) (fst ex_eig_F2) /\
+  fobj (fstore_after st [FSet 0 I3; FStrain 0; FSet 0 F2]) 0 = fobj st 0.
+Proof. exact nonvacuous_fse_session. Qed.
